@@ -307,6 +307,9 @@ func (cl *c18Cluster) op(name string) string {
 		if err == nil {
 			return "ok"
 		}
+		if os.Getenv("VERIF_ED_ERRTEXT") != "" {
+			return "err(" + err.Error() + ")"
+		}
 		return "err"
 	}
 	switch {
@@ -344,6 +347,14 @@ func (cl *c18Cluster) op(name string) string {
 			return name + ":nosource"
 		}
 		return name + ":" + e(cl.nodes[i].SyncFrom(cl.nodes[src]))
+	case strings.HasPrefix(name, "Reb"):
+		// first step of the rebuild on the joining replica: it marks itself rebuilding (the copy has not happened yet)
+		return name + ":" + e(cl.rest(idx(), "setrebuilding", `{"rebuilding":true}`))
+	case strings.HasPrefix(name, "Wipe"):
+		// the replica process restarts with an empty directory (what a replica that finds itself half rebuilt does
+		// before it registers for a fresh add)
+		cl.nodes[idx()] = eb.NewModelNode(c18addr(idx()))
+		return name + ":done"
 	case strings.HasPrefix(name, "Restart"):
 		// the replica process restarts (its data stays) and is ready for a fresh add
 		cl.nodes[idx()].Restart()
@@ -835,6 +846,8 @@ func c05ConcConfigs(tier string) []C18Cfg {
 	var out []C18Cfg
 	add := func(init string, ops ...string) { out = append(out, C18Cfg{Name: "failure", Init: init, Ops: ops}) }
 	out = append(out, C18Cfg{Name: "readd", Init: "rw2wo", Ops: []string{"Ver2+RbOff2", "WF2+Restart2+Add2"}})
+	out = append(out, C18Cfg{Name: "readd", Init: "rw2wo", Ops: []string{"Ver2+RbOff2", "WF2+Wipe2+Add2+Reb2"}})
+	out = append(out, C18Cfg{Name: "readd", Init: "rw2wo", Ops: []string{"Ver2+RbOff2", "Mon2+Wipe2+Add2+Reb2"}})
 	out = append(out, C18Cfg{Name: "readd", Init: "rw3", Ops: []string{"WF1+Restart1+Add1", "W0"}})
 	out = append(out, C18Cfg{Name: "readd", Init: "rw3", Ops: []string{"WF1+Restart1+Add1", "Mon1"}})
 	out = append(out, C18Cfg{Name: "readd", Init: "rw2wo", Ops: []string{"Ver2+RbOff2", "Mon2+Restart2+Add2"}})
